@@ -21,7 +21,6 @@ import (
 	"net"
 	"net/http"
 	"os"
-	"runtime"
 	"runtime/debug"
 	"sort"
 	"strconv"
@@ -1134,18 +1133,6 @@ func (r *hcRun) check() *vs.Violation {
 			// FLOW_CONTROL_ERROR by the next quiescent point
 			if st.overSent && st.overEndOff > 0 && st.overEndOff <= dBA {
 				if !cn.flowErr {
-					if hcDebugHash && cn.cc != nil {
-						cc := cn.cc
-						cc.mu.Lock()
-						cs := cc.streams[st.id]
-						fmt.Printf("HCDEBUG conn inflow=%+v closed=%v nstreams=%d cs=%v\n", cc.inflow, cc.closed, len(cc.streams), cs != nil)
-						if cs != nil {
-							fmt.Printf("HCDEBUG stream inflow=%+v readAborted=%v readClosed=%v pastHeaders=%v\n", cs.inflow, cs.readAborted, cs.readClosed, cs.pastHeaders)
-						}
-						cc.mu.Unlock()
-						buf := make([]byte, 1<<16)
-						fmt.Printf("HCDEBUG stacks\n%s\n", buf[:runtime.Stack(buf, true)])
-					}
 					return vs.Violf("C11", "over_window_not_rejected", "cli:over_window_accepted", "conn %d stream %d: DATA exceeding the advertised window was delivered but the client reported no FLOW_CONTROL_ERROR (rst=%v/%v goaway=%v/%v closed=%v)", cn.idx, st.id, st.cliRst, st.cliRstCode, cn.cliGoAway, cn.cliGoAwayCd, cn.cliClosed)
 				}
 				st.overEndOff = -1
@@ -1229,6 +1216,15 @@ func (r *hcRun) opStreams(op hcOp) []*hcStream {
 		return r.cands(func(st *hcStream) bool {
 			if (!st.srvHdr && op.kind == "data") || !hcAlive(st) || st.status == 204 || st.overSent {
 				return false
+			}
+			if op.kind == "overdata" {
+				// only streams that are certainly still live on the client: once the
+				// caller has cancelled, failed or begun to close the body the client
+				// has reset the stream internally (even if its RST_STREAM is not out
+				// yet) and its stream-level window no longer exists
+				if rq := r.reqs[st.req]; rq.cancelled || rq.closing || rq.readErr != nil || (rq.returned && rq.respStr != st) {
+					return false
+				}
 			}
 			return f == "C10" || !st.cliRstKnown
 		})
